@@ -406,8 +406,9 @@ impl<G: GenSc> Gen<G> {
         self.init[slot] = v;
         Some(slot)
     }
-    fn step(&mut self, sig: &Sig) -> bool {
-        let n = *self.rng.pick(sig.dims);
+    fn step(&mut self, sig: &Sig) -> bool { self.step_forced(sig, None, None) }
+    fn step_forced(&mut self, sig: &Sig, force_n: Option<usize>, force_form: Option<&'static str>) -> bool {
+        let n = match force_n { Some(n) => n, None => *self.rng.pick(sig.dims) };
         let mut args: Vec<usize> = Vec::new();
         for &ak in sig.args {
             let many = |k: usize| k;
@@ -428,7 +429,7 @@ impl<G: GenSc> Gen<G> {
                 _ => match self.arg(ak, n, sig.class, &args) { Some(i) => args.push(i), None => return false },
             }
         }
-        let form = *self.rng.pick(sig.forms);
+        let form = match force_form { Some(f) => f, None => *self.rng.pick(sig.forms) };
         let av: Vec<Val<G>> = args.iter().map(|&i| self.regs[i].clone()).collect();
         let res = match run_call::<G>(sig.op, form, &av) { Outcome::Done(v) => v, _ => return false };
         if matches!(res, Val::Panic) { return false; }
@@ -479,6 +480,21 @@ fn gen_program<G: GenSc>(rng: &mut Rng, mode: Mode, sigs: &[&Sig], pid: u64, len
     Some(format!("{{\"pid\":{},\"mode\":\"{:?}\",\"sc\":[{}],\"regs\":[{}],\"calls\":[{}]}}", pid, mode, scj.join(","), regs.join(","), g.calls.join(",")))
 }
 
+/// one single-call program for a forced (signature, dimension, form): the systematic sweep over the operator table
+fn gen_cover<G: GenSc>(rng: &mut Rng, mode: Mode, sig: &Sig, n: usize, form: &'static str, pid: u64) -> Option<String> {
+    for _ in 0..4 {
+        let mut g = Gen::<G> { rng: Rng(rng.next()), mode, regs: vec![Val::Nil; NREG], init: vec![Val::Nil; NREG], calls: Vec::new(),
+                               fsafe: true, prim: false, written: vec![false; NREG] };
+        if !g.step_forced(sig, Some(n), Some(form)) { continue; }
+        let scs = scalars_for(mode, g.fsafe, g.prim);
+        if scs.is_empty() { return None; }
+        let regs: Vec<String> = g.init.iter().map(|r| r.enc()).collect();
+        let scj: Vec<String> = scs.iter().map(|s| format!("\"{}\"", s)).collect();
+        return Some(format!("{{\"pid\":{},\"mode\":\"{:?}\",\"cover\":true,\"sc\":[{}],\"regs\":[{}],\"calls\":[{}]}}", pid, mode, scj.join(","), regs.join(","), g.calls.join(",")));
+    }
+    None
+}
+
 pub fn drive(profile: &str, seed: u64, count: usize) -> Vec<String> {
     let mut rng = Rng(seed.wrapping_mul(0x2545F4914F6CDD1D) ^ 0xC0FFEE);
     let mut out = Vec::new();
@@ -505,6 +521,23 @@ pub fn drive(profile: &str, seed: u64, count: usize) -> Vec<String> {
             _ => gen_program::<i64>(&mut rng, mode, &ms, pid, len),
         };
         if let Some(p) = p { out.push(p); }
+    }
+    // systematic sweep: every (operator, dimension, operand form, scalar mode) of the table at least once,
+    // independent of the random draws (exhaustive over the form table, values sampled)
+    for s in &sigs {
+        for &mode in &[Mode::Field, Mode::Ring, Mode::Int, Mode::Uint] {
+            if s.modes & mbit(mode) == 0 { continue; }
+            for &n in s.dims {
+                for &form in s.forms {
+                    pid += 1;
+                    let p = match mode {
+                        Mode::Field | Mode::Ring => gen_cover::<Q>(&mut rng, mode, s, n, form, pid),
+                        _ => gen_cover::<i64>(&mut rng, mode, s, n, form, pid),
+                    };
+                    if let Some(p) = p { out.push(p); }
+                }
+            }
+        }
     }
     out.extend(crate::driver2::drive2(profile, seed, count));
     out
